@@ -433,6 +433,7 @@ type taskState struct {
 	targets map[int]reflect.Value
 	twins   map[int]reflect.Value // C19: the same slot for the non-interned twin type
 	held    []heldVal             // what the caller still holds of earlier results
+	results []keptResult          // C07: decoded values the task keeps until the end of the run
 	keptNow reflect.Value         // shallow copy of the target's value taken just before the current re-use
 	keptExp reflect.Value         // deep copy of the same
 	bufs    map[int][]byte
@@ -593,6 +594,7 @@ func (t *taskState) run() {
 	if len(t.live) > 0 && len(ops) > 0 {
 		t.recheck(len(ops)-1, ops[len(ops)-1], "by the end of the run")
 	}
+	t.recheckResults()
 }
 
 func (t *taskState) runOne(i int, po *prepOp) {
@@ -729,6 +731,29 @@ func (t *taskState) checkDecoded(i int, po *prepOp, out reflect.Value, err error
 	}
 	if ok, path := world.Equal(out.Elem(), po.expVal); !ok {
 		t.fail(i, po, "mismatch", "decoded value differs from the solo decode at "+path)
+		return
+	}
+	// the caller keeps the result; it must still be what was returned when the run ends
+	// (somebody else's later call must not be able to change it)
+	if t.x.prop == "C07" && len(t.results) < 64 {
+		t.results = append(t.results, keptResult{i, po, out})
+	}
+}
+
+type keptResult struct {
+	i   int
+	po  *prepOp
+	out reflect.Value
+}
+
+// recheckResults: every decoded value a task still holds equals what its call
+// would have returned alone - also after all the other calls have run.
+func (t *taskState) recheckResults() {
+	for _, k := range t.results {
+		if ok, path := world.Equal(k.out.Elem(), k.po.expVal); !ok {
+			t.fail(k.i, k.po, "mismatch", "a decoded value changed after Unmarshal had returned it (other calls ran in between): at "+path)
+			return
+		}
 	}
 }
 
@@ -836,6 +861,12 @@ func Execute(prep *Prepared, hooks PropHooks, forced []engine.Dec, useForced boo
 		Budget: sc.Budget, PoolSeam: sc.PoolSeam, PoolBias: sc.PoolBias,
 	})
 	sim.Run(fns)
+	// every task is done: what each of them still holds must be what it was given
+	for _, ts := range x.tasks {
+		if !ts.aborted && len(ts.viol) == 0 {
+			ts.recheckResults()
+		}
+	}
 	out := &Outcome{Stats: sim.St, Decisions: sim.Decisions(), Trace: sim.Trace(), Pairs: sim.Pairs, Probes: map[string]int{}, OpsByKind: map[string]int{}}
 	for i, ts := range x.tasks {
 		out.Violations = append(out.Violations, ts.viol...)
